@@ -104,9 +104,10 @@ def run(ctx):
     names = [n for n in names]
     strat = c01.case_strategy(4 if ctx.tier == "quick" else 8, names, max_stmts=10 if ctx.tier == "quick" else 14)
     from ..common import run_systematic
-    from ..gen.templates import single_step_cases
+    from ..gen.templates import distinct_step_cases
 
     val = {"fill": 1, "layout": 2, "cfg": [3, 5, 1, 2, 4], "pick": 7}
     quick = ctx.tier == "quick"
-    run_systematic(ctx, single_step_cases(names, val, params=(0, 1) if quick else (0, 1, 2, 5, 7), sites=4 if quick else 8), guarded(ctx, check_case), keep_one_in=6 if quick else 1, label="template-single-steps")
+    sys_ops = [n for n in set(names) if sched.OPS[n]["group"] in ("storage", "loop", "core")]
+    run_systematic(ctx, distinct_step_cases(ctx.shard, ctx.nshards, sys_ops, val, params=(0, 1) if quick else (0, 1, 2, 5, 7)), guarded(ctx, check_case), keep_one_in=(lambda c: 1 if sched.OPS[c["steps"][0][0]]["group"] == "storage" else 4) if quick else 1, label="template-single-steps", presharded=True)
     run_cases(ctx, strat, guarded(ctx, check_case), ctx.budget(640, 50000))
